@@ -1,6 +1,7 @@
 mod adversary;
 mod fabric;
 mod gate;
+mod gen;
 mod sim;
 mod trace;
 mod scenarios;
